@@ -184,6 +184,8 @@ def compare_link(impl, model):
 
 # ---------------------------------------------------------------- driver level
 def gen_comp(rng):
+    if rng.random() < 0.2:
+        return sc.gen_mixed_delay_chain(rng)
     chain = []
     for _ in range(rng.randint(1, 3)):
         k = rng.choice(["dfix", "dfix", "dpull", "scale"])
@@ -264,9 +266,20 @@ def run(ctx, res):
         d = sc.correspond(s, impl, m, o)
         if d:
             res.diverge("sched/update-sequence", s, d, None)
-        f = oracle_comp(s, impl)
+        f = oracle_any(s, impl)
         if f:
             res.fail(s, f[0], f[1])
+
+
+def oracle_any(s, impl):
+    """two components: the direct comparison of source time and requested time; three time components (mixed delay
+    chain with a slow sink): the trace oracle of C02 — an update must be justified by the times actually requested"""
+    if len([c for c in s["comps"] if c["kind"] == "time"]) >= 3:
+        from . import c02
+        if impl["error"] is not None:
+            return ("the run completes", {"error": impl["error"], "msg": impl.get("msg")})
+        return c02.oracle(s, impl)
+    return oracle_comp(s, impl)
 
 
 def search(ctx, res, divergences, broken):
@@ -287,7 +300,7 @@ def search(ctx, res, divergences, broken):
     for _ in range(ctx.n(500, 4000)):
         s = gen_comp(ctx.rng)
         res.case(s, True)
-        f = oracle_comp(s, run_impl(s))
+        f = oracle_any(s, run_impl(s))
         if f:
             res.fail(s, f[0], f[1])
             return
@@ -322,5 +335,5 @@ def replay(ctx, rp):
         o = oracle_link(case, impl)
         return {"fails": bool(o), "oracle": o, "impl": impl, "reference": reference(case)}
     impl = run_impl(case)
-    o = oracle_comp(case, impl)
+    o = oracle_any(case, impl)
     return {"fails": bool(o), "oracle": o, "updates": impl["updates"]}
